@@ -119,6 +119,8 @@ pub fn evaluate_code(code: &CodeBody) -> Option<EvaluatedValue> {
                         _ => return None,
                     }
                 }
+                // modifies a value tracked in locals, which isn't supported
+                Statement::Exec(Rvalue::WriteSubscript(..)) => return None,
                 Statement::Exec(_) => {} // uninteresting as a constant expression
                 Statement::ObserveProperty(..) => {}
             }
